@@ -114,13 +114,14 @@ def LMon.sameEpoch (m : LMon) (f n : Int) : Option LMon :=
 
 /-- The first batch to ARRIVE need not be the first one written (the first request can be the one that is lost), neither
 at the start of the history (the chain starts at `nextSeq` of the initial state, the partition's starting sequence) nor
-after an epoch change (the chain of a new epoch starts at 0). -/
+after an epoch change (the chain of a new epoch starts at 0). A `.reset` seen before the first batch arrives stays
+pending (`allow` is kept when the monitor starts): the batches written before it may all have been lost. -/
 def LMon.step (m : LMon) : Ev → Option LMon
   | .reset => some { m with allow := true }
   | .batch e f n =>
     if f < 0 || f ≥ seqMod || n < 1 || n ≥ seqMod then none
     else if !m.started then
-      LMon.sameEpoch { m with started := true, epoch := e, chain := [], allow := false, ahead := [] } f n
+      LMon.sameEpoch { m with started := true, epoch := e, chain := [], ahead := [] } f n
     else if e == m.epoch then LMon.sameEpoch m f n
     else if m.allow then
       LMon.sameEpoch { started := true, epoch := e, nextSeq := 0, chain := [], allow := false, ahead := [] } f n
